@@ -33,7 +33,8 @@ Definition check_minname := mismatches minname_ok.
 
 (* ---- whole splitting: the graph as the harness generated it and the chunks
         observed in the metafile / output text of api.Build ---- *)
-Definition file_z := (list (Z * bool) * list Z * list Z * list bytes * list (Z * Z) * list (Z * Z))%type.
+Definition part_z := (bool * list Z * list (Z * Z) * list Z)%type.
+Definition file_z := (list (Z * bool) * list part_z * list ((Z * Z) * (Z * Z)) * list (Z * bytes) * list (Z * Z))%type.
 Definition graph_z := (list file_z * list Z * bool)%type.
 (* (rep, files in output order without the runtime, static imports in text order
     (rep of target, item aliases in text order), dynamic import reps ascending,
@@ -41,9 +42,12 @@ Definition graph_z := (list file_z * list Z * bool)%type.
 Definition obs_z := (Z * list Z * list (Z * list bytes) * list Z * list bytes)%type.
 
 Definition n2 (p : Z * Z) : nat * nat := (Z.to_nat (fst p), Z.to_nat (snd p)).
+Definition mk_part (p : part_z) : part :=
+  let '(live, deps, uses, decl) := p in mkPart live (map Z.to_nat deps) (map n2 uses) (map Z.to_nat decl).
 Definition mk_file (f : file_z) : file :=
-  let '(recs, deps, ldeps, names, uses, exps) := f in
-  mkFile (map (fun r => (Z.to_nat (fst r), snd r)) recs) (map Z.to_nat deps) (map Z.to_nat ldeps) names (map n2 uses) (map n2 exps).
+  let '(recs, parts, binds, names, exps) := f in
+  mkFile (map (fun r => (Z.to_nat (fst r), snd r)) recs) (map mk_part parts)
+         (map (fun b => (n2 (fst b), n2 (snd b))) binds) (map (fun x => (Z.to_nat (fst x), snd x)) names) (map n2 exps).
 Definition mk_graph (g : graph_z) : graph :=
   let '(fs, user, mini) := g in mkGraph (map mk_file fs) (map Z.to_nat user) mini.
 
@@ -111,6 +115,55 @@ Definition split_ok (c : graph_z * list obs_z) : bool :=
     && deps_coverb (mk_graph gz)
   end.
 Definition check_split := mismatches split_ok.
+
+(* ---- comparison with the linker's own chunk data (dump taken inside Link by the C10 hook):
+        per chunk, in chunk index order: (entry bits, entry file or -1, filesInChunkInOrder,
+        importsFromOtherChunks as (chunk, refs, aliases), exportsToOtherChunks as (ref, alias),
+        crossChunkImports as (is dynamic, chunk)) ---- *)
+Definition dchunk_z := (bytes * Z * list Z * list (Z * list (Z * Z) * list bytes) * list ((Z * Z) * bytes) * list (bool * Z))%type.
+
+Fixpoint list_eqb2 {A B} (eqb : A -> B -> bool) (a : list A) (b : list B) : bool :=
+  match a, b with
+  | [], [] => true
+  | x :: a', y :: b' => eqb x y && list_eqb2 eqb a' b'
+  | _, _ => false
+  end.
+Definition syms_same (a b : list sym) : bool :=
+  (length a =? length b)%nat && forallb (fun x => mems x b) a && forallb (fun x => mems x a) b.
+Definition dimp_eqb (m : nat * list sym * list bytes) (d : Z * list (Z * Z) * list bytes) : bool :=
+  let '(mc, mr, ma) := m in let '(dc, dr, da) := d in
+  (Z.of_nat mc =? dc) && syms_same mr (map n2 dr) && list_eqb zlist_eqb ma da.
+Definition dexp_eqb (m : sym * bytes) (d : (Z * Z) * bytes) : bool :=
+  sym_eqb (fst m) (n2 (fst d)) && zlist_eqb (snd m) (snd d).
+Definition dcross_eqb (m : cimport) (d : bool * Z) : bool :=
+  Bool.eqb (i_dynamic m) (fst d) && (Z.of_nat (i_chunk m) =? snd d).
+
+Definition dump_ok (c : graph_z * list dchunk_z) : bool :=
+  let '(gz, dump) := c in
+  let g := mk_graph gz in
+  match split g with
+  | None => false
+  | Some r =>
+    let a := r_analysis r in
+    let chunks := a_chunks a in
+    (length chunks =? length dump)%nat &&
+    forallb (fun i =>
+      let c := nth i chunks (mkChunk [] None []) in
+      let x := nth i (r_cross r) (mkCross [] []) in
+      let '(dbits, dentry, dfiles, dimps, dexps, dcross) := nth i dump ([], -1, [], [], [], []) in
+      let statics := filter (fun im => negb (i_dynamic im)) (x_imports x) in
+      let raws := raw_imports g a i c in
+      zlist_eqb (c_bits c) dbits
+      && (match c_entry c with Some (_, e) => Z.of_nat e | None => -1 end =? dentry)
+      && zlist_eqb (map Z.of_nat (nth i (r_orders r) [])) dfiles
+      && list_eqb2 dimp_eqb (map (fun p => (fst (fst p), snd (fst p), i_items (snd p))) (combine raws statics)) dimps
+      && (length raws =? length statics)%nat
+      && list_eqb2 dexp_eqb (x_exports x) dexps
+      && list_eqb2 dcross_eqb (x_imports x) dcross)
+    (seq 0 (length chunks))
+    && deps_coverb g
+  end.
+Definition check_dump := mismatches dump_ok.
 
 (* debugging aid: what the model predicts *)
 Definition predict (gz : graph_z) : option (list obs_z) :=
